@@ -227,6 +227,15 @@ def build(c, variant):
         o = a @ x + y + zz * x[0] if variant.get("adapt") not in ("affine", "both") else a @ x + y + zz
         m.minsup(rsome.E(o), fs)
         w.obj = ("E", [o])
+    elif obj_kind == "maxinf-E-affine":
+        # max inf E(o): compiled as  min sup E(-o)  with the reported value negated by get()
+        o = a @ x + y + zz * x[0] if variant.get("adapt") not in ("affine", "both") else a @ x + y + zz
+        m.maxinf(rsome.E(o), fs)
+        w.obj = ("E", [-o])
+    elif obj_kind == "max-R":
+        o = a @ x + y
+        m.maxinf(o, fs)
+        w.obj = ("R", [-o])
     elif obj_kind == "E-maxof":
         p1 = a @ x + zz * x[1]
         p2 = y - zz
@@ -239,12 +248,23 @@ def build(c, variant):
     k1 = y + x[0] - zz
     m.st(k1 >= -1)
     w.R.append(-k1 - 1)
+    w.R_own = []
     if variant.get("econstr") == "own-set":
         gs = w.gs
         e1 = x[1] * zz + y
         g = c.fresh_real("g")
-        m.st((rsome.E(e1) <= g).forall(gs))
-        w.E.append([e1 - g])
+        if variant.get("own_kind") == "maxof":
+            q2 = x[0] - 2 * zz
+            m.st((rsome.E(rsome.maxof(e1, q2)) <= g).forall(gs))
+            w.E.append([e1 - g, q2 - g])
+        else:
+            m.st((rsome.E(e1) <= g).forall(gs))
+            w.E.append([e1 - g])
+        if variant.get("own_robust"):
+            # a constraint without E carrying its own set: it holds on G's supports
+            k2 = x[0] * zz - y
+            m.st((k2 <= 5).forall(gs))
+            w.R_own.append(k2 - 5)
     elif variant.get("econstr") == "maxof":
         # an expectation of a piecewise term as a CONSTRAINT: E(max(q1, q2)) <= g, not max(E q1, E q2) <= g
         q1 = x[1] * zz + y
@@ -307,6 +327,10 @@ VARIANTS = {
     "event,E-affine,econstr,expt-overlap": dict(obj="E-affine", expt="overlap", adapt="event", econstr=True),
     "static,E-affine,expt-all,econstr-with-its-own-set": dict(obj="E-affine", expt="all", econstr="own-set"),
     "static,R-objective,expt-per-scenario,econstr-with-its-own-set": dict(obj="R", expt="per-scenario", econstr="own-set"),
+    "static,maxinf-E-affine,expt-all": dict(obj="maxinf-E-affine", expt="all"),
+    "event,maxinf-E-affine,expt-per-scenario,prob-ub": dict(obj="maxinf-E-affine", expt="per-scenario", prob="ub", adapt="event"),
+    "static,max-R-objective,expt-all,econstr": dict(obj="max-R", expt="all", econstr=True),
+    "static,E-affine,expt-all,E-maxof-and-robust-constraints-with-their-own-set": dict(obj="E-affine", expt="all", econstr="own-set", own_kind="maxof", own_robust=True),
     "static,E-affine,expt-all,E-maxof-constraint": dict(obj="E-affine", expt="all", econstr="maxof"),
     "event,R-objective,expt-per-scenario,E-maxof-constraint": dict(obj="R", expt="per-scenario", adapt="event", econstr="maxof"),
     "event,E-affine,expt-all,convex-constraints": dict(obj="E-affine", expt="all", adapt="event", convex=True),
@@ -370,6 +394,10 @@ def run_variant(vname):
             for s in range(w.S):
                 vals = dec_value(e, w.m, s, X, Z)
                 t.append(p_implies(p_and(feas, in_support(w, s, Z)), p_and(*[p_le(v, 0) for v in vals])))
+        for e in w.R_own:
+            for s in range(w.S):
+                vals = dec_value(e, w.m, s, X, Z)
+                t.append(p_implies(p_and(feas, in_support(w, s, Z, True)), p_and(*[p_le(v, 0) for v in vals])))
         if w.obj[0] == "R":
             for s in range(w.S):
                 ov = dec_value(w.obj[1][0], w.m, s, X, Z)[0]
